@@ -148,6 +148,15 @@ def work(item):
             which = "all-shapes" if len(bad) == len(obs) else ",".join(names)
             got = sorted(set("PANIC" if (g == "PANIC" or g.startswith("CRASH(signal")) else g for g in bad.values()))
             sig = "%s want=%s got=%s shapes=%s" % (expr, want if kind == "val" else kind.upper(), "|".join(got), which)
+            if op == "/" and len(args) == 2 and kind == "val" and len(got) == 1:
+                # one mechanism, many inputs: the observed value is exactly x * (1/y) (reciprocal rounded first)
+                try:
+                    from .ref_num import f64_exact
+                    fa, fb = f64_exact(args[0]), f64_exact(args[1])
+                    if got[0] == enc(fa * (1.0 / fb)):
+                        sig = "(/ x y) with an inexact operand is computed as (* x (/ 1 y)): reciprocal rounded first"
+                except Exception:
+                    pass
             fails.append((sig, {"expr": expr, "expected": want if kind == "val" else kind, "observed": obs, "env": env},
                           {"case": {"steps": steps}, "env": env, "expected": want if kind == "val" else kind,
                            "observed": obs}))
